@@ -22,6 +22,20 @@ def ops : List (String × Op) := [
       pure (showA (fun (a : GeneAns) =>
         s!"{a.start} {a.stop} {b01 a.coding} {a.primary} " ++
           (match a.primaryCds with | none => "None" | some l => showBlks l)) (mkGene cs))),
+  -- the same gene / feature collection built on a sequence chunk `<lo> <hi> <strand>`: the aggregates are functions of
+  -- the chromosome-level children, so the model ignores the chunk
+  ("genek", do
+      let _ ← pNat; let _ ← pNat; let _ ← pStrand
+      let cs ← pChildren
+      pure (showA (fun (a : GeneAns) =>
+        s!"{a.start} {a.stop} {b01 a.coding} {a.primary} " ++
+          (match a.primaryCds with | none => "None" | some l => showBlks l)) (mkGene cs))),
+  ("fcollk", do
+      let _ ← pNat; let _ ← pNat; let _ ← pStrand
+      let cs ← pChildren
+      pure (showA (fun (a : FcollAns) =>
+        let ts := a.types
+        s!"{a.start} {a.stop} {a.primary} " ++ " ".intercalate (toString ts.length :: ts.map encodeStr)) (mkFcoll cs))),
   ("gmt", do let ht ← pBool; let cs ← pChildren; pure (showA showMerged (mergedTranscript ht cs))),
   ("gmc", do let ht ← pBool; let cs ← pChildren; pure (showA showMerged (mergedCds ht cs))),
   ("fcoll", do
